@@ -567,6 +567,7 @@ class DictT(AdtT):
         lem("disj_set", [a, b, k, v], z3.Implies(z3.And(disj(a, b), z3.Not(has(b, k))), disj(st(a, k, v), b)),
             [disj(st(a, k, v), b)], b)
         # delete (dict.pop / del): removes the entry of the key; with unique keys (wf) the key is gone afterwards
+        lem("len_app", [a, b], ln(app(a, b)) == ln(a) + ln(b), [ln(app(a, b))], a)
         lem("has_del_ne", [a, k, k2], z3.Implies(k2 != k, has(rm(a, k), k2) == has(a, k2)), [has(rm(a, k), k2)], a)
         lem("has_del_eq", [a, k], z3.Implies(wf(a), z3.Not(has(rm(a, k), k))), [has(rm(a, k), k)], a)
         lem("wf_del", [a, k], z3.Implies(wf(a), wf(rm(a, k))), [wf(rm(a, k))], a)
